@@ -43,6 +43,30 @@ func signumFloat(f float64) int {
 	return 0
 }
 
+// cmpFloat64 orders two non-NaN floats without subtracting them
+// (Inf - Inf is NaN, and a difference can underflow to zero).
+func cmpFloat64(a, b float64) int {
+	if a < b {
+		return -1
+	}
+	if a > b {
+		return 1
+	}
+	return 0
+}
+
+// cmpInt64 orders two integers without subtracting them
+// (the difference overflows for operands far apart).
+func cmpInt64(a, b int64) int {
+	if a < b {
+		return -1
+	}
+	if a > b {
+		return 1
+	}
+	return 0
+}
+
 func signumInt(i int64) int {
 	if i > 0 {
 		return 1
@@ -59,7 +83,7 @@ func compareFloat(f *SexpFloat, expr Sexp) (int, error) {
 		if math.IsNaN(f.Val) {
 			return 2, nil
 		}
-		return signumFloat(f.Val - float64(e.Val)), nil
+		return cmpFloat64(f.Val, float64(e.Val)), nil
 	case *SexpFloat:
 		nanCount := 0
 		if math.IsNaN(f.Val) {
@@ -71,12 +95,12 @@ func compareFloat(f *SexpFloat, expr Sexp) (int, error) {
 		if nanCount > 0 {
 			return 1 + nanCount, nil
 		}
-		return signumFloat(f.Val - e.Val), nil
+		return cmpFloat64(f.Val, e.Val), nil
 	case *SexpChar:
 		if math.IsNaN(f.Val) {
 			return 2, nil
 		}
-		return signumFloat(f.Val - float64(e.Val)), nil
+		return cmpFloat64(f.Val, float64(e.Val)), nil
 	}
 	errmsg := fmt.Sprintf("err 91: cannot compare %T to %T", f, expr)
 	return 0, errors.New(errmsg)
@@ -85,17 +109,20 @@ func compareFloat(f *SexpFloat, expr Sexp) (int, error) {
 func compareInt(i *SexpInt, expr Sexp) (int, error) {
 	switch e := expr.(type) {
 	case *SexpInt:
-		return signumInt(i.Val - e.Val), nil
+		return cmpInt64(i.Val, e.Val), nil
 	case *SexpFloat:
-		return signumFloat(float64(i.Val) - e.Val), nil
+		if math.IsNaN(e.Val) {
+			return 2, nil
+		}
+		return cmpFloat64(float64(i.Val), e.Val), nil
 	case *SexpChar:
-		return signumInt(i.Val - int64(e.Val)), nil
+		return cmpInt64(i.Val, int64(e.Val)), nil
 	case *SexpReflect:
 		r := reflect.Value(e.Val)
 		ifa := r.Interface()
 		switch z := ifa.(type) {
 		case *int64:
-			return signumInt(i.Val - *z), nil
+			return cmpInt64(i.Val, *z), nil
 		}
 		P("compareInt(): ifa = %v/%T", ifa, ifa)
 		P("compareInt(): r.Elem() = %v/%T", r.Elem(), r.Elem())
@@ -110,9 +137,12 @@ func compareInt(i *SexpInt, expr Sexp) (int, error) {
 func compareChar(c *SexpChar, expr Sexp) (int, error) {
 	switch e := expr.(type) {
 	case *SexpInt:
-		return signumInt(int64(c.Val) - e.Val), nil
+		return cmpInt64(int64(c.Val), e.Val), nil
 	case *SexpFloat:
-		return signumFloat(float64(c.Val) - e.Val), nil
+		if math.IsNaN(e.Val) {
+			return 2, nil
+		}
+		return cmpFloat64(float64(c.Val), e.Val), nil
 	case *SexpChar:
 		return signumInt(int64(c.Val) - int64(e.Val)), nil
 	}
@@ -312,7 +342,14 @@ func (env *Zlisp) Compare(a Sexp, b Sexp) (int, error) {
 func compareUint64(i *SexpUint64, expr Sexp) (int, error) {
 	switch e := expr.(type) {
 	case *SexpUint64:
-		return signumUint64(i.Val - e.Val), nil
+		// not the sign of the (unsigned, wrapping) difference
+		if i.Val < e.Val {
+			return -1, nil
+		}
+		if i.Val > e.Val {
+			return 1, nil
+		}
+		return 0, nil
 	}
 	errmsg := fmt.Sprintf("err 101: cannot compare %T to %T", i, expr)
 	return 0, errors.New(errmsg)
